@@ -154,9 +154,15 @@ struct LeaseNode {
     installed_any: bool,
     /// accepted lease checks not yet matched with a write: key -> labels in order
     pending_ok: BTreeMap<String, std::collections::VecDeque<&'static str>>,
+    /// per task: lease snapshots it has taken since its last accepted lease check. Every request that writes
+    /// refreshes the leases itself first (forward_append), so an accepted check of a task that has not taken a
+    /// snapshot since its previous accepted check relied on somebody else's refresh
+    snaps_since_ok: BTreeMap<u64, u32>,
 }
 
 thread_local! {
+    /// per topic: engine writes whose lease check was anything but "lease_held"
+    static IRREGULAR_LEASE_WRITES: RefCell<BTreeMap<String, u64>> = const { RefCell::new(BTreeMap::new()) };
     static LEASES: RefCell<BTreeMap<u64, LeaseNode>> = const { RefCell::new(BTreeMap::new()) };
     static LEASE_TOPICS: RefCell<BTreeSet<String>> = const { RefCell::new(BTreeSet::new()) };
 }
@@ -188,7 +194,10 @@ fn lease_event(node: u64, op: &str, arg: &str, _step: u64) {
                 ok = want == got;
             }
             LEASES.with(|l| {
-                l.borrow_mut().entry(node).or_default().snap_by_task.insert(task, (got, ok));
+                let mut l = l.borrow_mut();
+                let n = l.entry(node).or_default();
+                n.snap_by_task.insert(task, (got, ok));
+                *n.snaps_since_ok.entry(task).or_insert(0) += 1;
             });
         }
         "lease_installed" => {
@@ -207,12 +216,15 @@ fn lease_event(node: u64, op: &str, arg: &str, _step: u64) {
             LEASES.with(|l| {
                 let mut l = l.borrow_mut();
                 let n = l.entry(node).or_default();
+                let refreshed_by_request = n.snaps_since_ok.insert(task, 0).unwrap_or(0) > 0;
                 let label = if !n.installed.contains(arg) {
                     "accepted_without_lease"
                 } else if n.installed_extra.contains(arg) {
                     "lease_kept_by_install"
                 } else if !n.installed_snapshot_ok {
                     "lease_from_wrong_snapshot"
+                } else if !refreshed_by_request {
+                    "lease_not_refreshed_by_request"
                 } else {
                     "lease_held"
                 };
@@ -251,6 +263,9 @@ fn check_write(node: u64, wal_key: &str, step: u64) {
     tokio::sim::stat("c23_writes_checked", 1);
     let lease = lease_label_for_write(node, wal_key);
     tokio::sim::stat(&format!("c23_lease_{}", lease), 1);
+    if lease != "lease_held" {
+        IRREGULAR_LEASE_WRITES.with(|w| *w.borrow_mut().entry(topic.clone()).or_insert(0) += 1);
+    }
     if let Some(st) = meta.get_topic_state(&topic) {
         if st.current_segment > segment {
             finding(
@@ -850,6 +865,9 @@ fn judge_c22() {
                 if x.rule.starts_with("c22.") {
                     x.facts.insert("writes_beyond_sealed_count".into(), serde_json::json!(beyond));
                     x.facts.insert("sealed_count_differs_from_writes".into(), serde_json::json!(mismatch));
+                    // did any write to this topic get through a lease check other than the regular one?
+                    let irregular = IRREGULAR_LEASE_WRITES.with(|w| w.borrow().get(&topic).copied().unwrap_or(0));
+                    x.facts.insert("writes_on_irregular_lease".into(), serde_json::json!(irregular > 0));
                 }
             }
         });
